@@ -723,6 +723,7 @@ int main(int argc, char **argv)
 		if (!strcmp(argv[i], "-o") && i + 1 < argc) vf_out = fopen(argv[++i], "w");
 		else if (!strcmp(argv[i], "-g") && i + 1 < argc) only = atoi(argv[++i]);
 		else if (!strcmp(argv[i], "-H") && i + 1 < argc) vf_horizon = atol(argv[++i]);
+		else if (!strcmp(argv[i], "-T") && i + 1 < argc) vf_deadline = time((time_t *)0) + atol(argv[++i]);
 		else if (!strcmp(argv[i], "-W") && i + 1 < argc) vf_wd_secs = atoi(argv[++i]);
 	}
 	if (!vf_out) return 5;
@@ -763,15 +764,15 @@ int main(int argc, char **argv)
 			vf_reported_in_group = 0;
 			vf_enum_inputs();
 		}
-		if (vf_n_mismatch + vf_n_fatal > 0) break;
+		if (vf_n_mismatch + vf_n_fatal > 0 || vf_timed_out) break;
 	}
 	vf_bound_done = bound > VF_BUDGET_TOTAL ? VF_BUDGET_TOTAL : bound;
 	vf_finish();
-	fprintf(vf_out, "{\"summary\":1,\"groups\":%d,\"inputs\":%ld,\"executions\":%ld,\"tokens\":%ld,\"mismatches\":%ld,"
+	fprintf(vf_out, "{\"summary\":1,\"timed_out\":%d,\"groups\":%d,\"inputs\":%ld,\"executions\":%ld,\"tokens\":%ld,\"mismatches\":%ld,"
 		"\"fatals\":%ld,\"horizons\":%ld,\"nontrivial\":%ld,\"reads\":%ld,\"eof_actions\":%ld,"
 		"\"ref_states\":%ld,\"ref_edges\":%ld,\"ref_edges_walked\":%ld,\"choice_points\":%ld,\"overflow\":%d,"
 		"\"bound\":%d,\"dup_preaction\":%ld,\"overread_checks\":%ld,\"expected_fatals\":%ld,\"op_effects\":%ld,\"ops\":[",
-		ng, vf_n_inputs, vf_executions, vf_n_tokens, vf_n_mismatch, vf_n_fatal, vf_n_horizon, vf_n_nontrivial,
+		vf_timed_out, ng, vf_n_inputs, vf_executions, vf_n_tokens, vf_n_mismatch, vf_n_fatal, vf_n_horizon, vf_n_nontrivial,
 		vf_n_reads, vf_n_eof, vf_states_total, vf_edges_live, vf_edges_seen_n, vf_choice_points, vf_overflow,
 		vf_bound_done, vf_n_dup_preaction, vf_n_overread_checks, vf_n_expected_fatal, vf_n_op_effect);
 	for (i = 0; i < VF_NOPS; i++) fprintf(vf_out, "%s%ld", i ? "," : "", vf_n_ops[i]);
